@@ -489,11 +489,13 @@ def main(tier, seed, replay=None):
     res = execute(histories, exe, "main", cfg_flags)
     if replay:
         print("history:", json.dumps(histories[0]))
+        unp = execute(histories, exe, "unpatched", "000", want_impl=False)["model_cfg"]
         for j, s in enumerate(res["spec"][0]):
             print("op   ", op_text(histories[0]["ops"][j]))
             print("spec ", s)
             print("impl ", res["impl"][0][j] if res["impl"] and j < len(res["impl"][0]) else None)
             print("model", res["model_all"][0][j] if res["model_all"] and j < len(res["model_all"][0]) else None)
+            print("model of the code before the C15 repairs (fx_none)", unp[0][j] if unp and j < len(unp[0]) else None)
             if cfg_flags != "111":
                 print("model[%s]" % cfg_flags, res["model_cfg"][0][j] if res["model_cfg"] and j < len(res["model_cfg"][0]) else None)
             print()
